@@ -775,8 +775,29 @@ func featC14(m *gen.Mixed, ts *gen.TieSetup, p *modelParams) {
 			}
 		})
 	}
+	// an address that holds a stake at one snapshot, is emptied COMPLETELY (every asset, its PEG too) before the
+	// next one, and is refilled before the one after: at that third snapshot it has no previous balance to
+	// take the minimum with and earns nothing
+	{
+		ek := forge.NewKey(fmt.Sprintf("c14-emptied-%d", p.Seed))
+		fundMany(m, ts.Whale, first+2, []forge.Key{ek}, func(int) uint64 { return per*2 + 12345 })
+		s1 := firstSnap + 144
+		m.ForceGraded[s1+5], m.ForceGraded[s1+6], m.ForceGraded[s1+144+5] = true, true, true
+		m.Schedule(s1+5, func(v *gen.View, s *forge.BlockSpec) {
+			n := 0
+			for t := fat2.PTickerInvalid + 1; t < fat2.PTickerMax; t++ {
+				if bal := v.Balances.Get(ek.FA(), t); bal > 0 {
+					s.Tx = append(s.Tx, forge.SignedBatch([]forge.Tx{forge.Transfer(ek.FA(), t, bal, sink)}, m.W.EntryTime(s1+5)+int64(130+n), ek))
+					n++
+				}
+			}
+		})
+		m.Schedule(s1+144+5, func(v *gen.View, s *forge.BlockSpec) {
+			s.Tx = append(s.Tx, forge.SignedBatch([]forge.Tx{forge.Transfer(ts.Whale.FA(), fat2.PTickerUSD, per*2+777, ek.FA())}, m.W.EntryTime(s1+144+5)+140, ts.Whale))
+		})
+	}
 	// movements between snapshots: out, in, round trip, new arrival
-	for s0 := firstSnap; s0 < firstSnap+144*4; s0 += 144 {
+	for s0 := firstSnap; s0 < firstSnap+144*4; s0 += 144 { // (the chain runs a little past the fourth snapshot after the first)
 		for i := 0; i < 6 && i < len(ks); i++ {
 			k := ks[rng.Intn(len(ks))]
 			h := s0 + uint32(10+rng.Intn(100))
@@ -824,6 +845,24 @@ func featC11(m *gen.Mixed, ts *gen.TieSetup, p *modelParams) {
 		m.Schedule(h, func(v *gen.View, s *forge.BlockSpec) {
 			w := m.W
 			ver := e.OPRVersion(h)
+			if h < e.V20 && h > e.TxConv+6 && (int64(h)+p.Seed)%5 == 0 {
+				// well-formed staking records of current PEG holders BEFORE staking exists: third parties can
+				// write to the staking chain at any time; before 2.0 its records earn nothing
+				var st []forge.Key
+				for _, a := range gen.TopPEG(v.Balances, 100) {
+					for _, k := range m.Actors {
+						if k.FA() == a && !k.IsEth() {
+							st = append(st, k)
+						}
+					}
+				}
+				if len(st) > 30 {
+					st = st[:30]
+				}
+				if len(st) >= 25 {
+					s.SPR = append(s.SPR, w.StdSPRs(h, st, w.Prices)...)
+				}
+			}
 			if ver == 1 && len(s.OPR) >= 10 {
 				// V1 grading does not look at the payout address: two records naming something that is not an
 				// address, with enough proof of work to rank first and second among equally good records.
@@ -970,6 +1009,16 @@ func featC12(m *gen.Mixed, ts *gen.TieSetup, p *modelParams) {
 		h := h
 		m.Schedule(h, func(v *gen.View, s *forge.BlockSpec) {
 			if len(s.SPR) < 25 || len(s.OPR) < 25 {
+				return
+			}
+			switch rng.Intn(12) {
+			case 0: // an OPR entry block without winners (too few records) next to winning staking records: rates come from the SPR alone
+				if !(h%144 == 0) {
+					s.OPR = s.OPR[:3+rng.Intn(5)]
+					return
+				}
+			case 1: // the reverse: winning OPRs, a staking entry block with too few records
+				s.SPR = s.SPR[:1+rng.Intn(20)]
 				return
 			}
 			var pct float64
